@@ -549,6 +549,31 @@ def _inline_once(fn, resolver, keep) -> bool:
                     changed = True
                     out.extend(do_block([hoisted, st]))
                     continue
+            # a multi-statement helper called as (the negation of / the first operand of) an if test: the test is the first
+            # thing the statement evaluates, so `if not self._h(x):` is `t = self._h(x); if not t:`
+            if isinstance(st, ast.If):
+                holder, fld_, node_ = st, "test", st.test
+                for _ in range(3):
+                    if isinstance(node_, ast.UnaryOp) and isinstance(node_.op, ast.Not):
+                        holder, fld_, node_ = node_, "operand", node_.operand
+                    elif isinstance(node_, ast.BoolOp):
+                        holder, fld_, node_ = node_, ("values", 0), node_.values[0]
+                    else:
+                        break
+                if isinstance(node_, ast.Call):
+                    el_ = eligible(node_)
+                    if el_ is not None and _single_expr(el_[0]) is None:
+                        tmp_ = f"_t{next(_counter)}"
+                        nm_ = ast.copy_location(ast.Name(id=tmp_, ctx=ast.Load()), node_)
+                        if isinstance(fld_, tuple):
+                            getattr(holder, fld_[0])[fld_[1]] = nm_
+                        else:
+                            setattr(holder, fld_, nm_)
+                        hoisted_if = ast.copy_location(ast.Assign(targets=[ast.Name(id=tmp_, ctx=ast.Store())], value=node_), st)
+                        changed = True
+                        out.extend(do_block([hoisted_if]))
+                        out.append(st)
+                        continue
             call, target, mode = None, None, None
             if isinstance(st, ast.Expr) and isinstance(st.value, ast.Call):
                 call, mode = st.value, "expr"
@@ -890,6 +915,61 @@ def getattr_consts_to_attributes(fn):
             return node
 
     T().visit(fn)
+    ast.fix_missing_locations(fn)
+    return _set_parents(fn)
+
+
+def propagate_type_test_locals(fn):
+    """in place: a local bound ONCE to a pure type test - isinstance(..) calls combined with not / and / or and other
+    such locals - is substituted where it is read and its assignment dropped (`is_stmt = isinstance(t, STMTTRNRS)` ...
+    `x = t.stmtrs if is_stmt else t.stmtendrs`), so that narrowing sees the tests themselves"""
+
+    def pure(e, known):
+        if isinstance(e, ast.Call):
+            return isinstance(e.func, ast.Name) and e.func.id == "isinstance" and len(e.args) == 2 and isinstance(e.args[0], ast.Name) and not e.keywords
+        if isinstance(e, ast.BoolOp):
+            return all(pure(v, known) for v in e.values)
+        if isinstance(e, ast.UnaryOp) and isinstance(e.op, ast.Not):
+            return pure(e.operand, known)
+        if isinstance(e, ast.Name):
+            return e.id in known
+        return False
+
+    stores = {}
+    for x in ast.walk(fn):
+        if isinstance(x, ast.Name) and isinstance(x.ctx, ast.Store):
+            stores[x.id] = stores.get(x.id, 0) + 1
+    known = {}
+    changed = True
+    while changed:
+        changed = False
+        for st in ast.walk(fn):
+            if isinstance(st, ast.Assign) and len(st.targets) == 1 and isinstance(st.targets[0], ast.Name):
+                nm = st.targets[0].id
+                if nm not in known and stores.get(nm) == 1 and pure(st.value, known):
+                    # the tested variables are not re-bound by a plain assignment elsewhere in the function
+                    subjects = {c.args[0].id for c in ast.walk(st.value) if isinstance(c, ast.Call)}
+                    if all(stores.get(sj, 0) <= 1 for sj in subjects):
+                        known[nm] = st
+                        changed = True
+    if not known:
+        return fn
+
+    class Sub(ast.NodeTransformer):
+        def visit_Name(self, node):
+            if isinstance(node.ctx, ast.Load) and node.id in known:
+                return self.visit(clone(known[node.id].value))
+            return node
+
+    class Drop(ast.NodeTransformer):
+        def visit_Assign(self, node):
+            if any(node is st for st in known.values()):
+                return None
+            return node
+
+    # substitute inside the definitions first (they may refer to one another), then everywhere, then drop
+    Sub().visit(fn)
+    Drop().visit(fn)
     ast.fix_missing_locations(fn)
     return _set_parents(fn)
 
